@@ -170,6 +170,7 @@ def undictify_element(element_dict: dict[str, Any], circuit_dict: dict[str, Any]
         kwargs.update(circuit_dict[element_dict['name']])
         if 'phi' in circuit_dict[element_dict['name']]:
             kwargs['deg'] = False
+            kwargs['sin'] = False
     try:
         element = simple_circuit_element_types[element_dict['type']](**kwargs)
     except KeyError:
